@@ -267,6 +267,15 @@ func (w *routerWorker) record(id int, s *httpd.Store) {
 func (w *routerWorker) serve(mux *httpd.Mux, path, method string) {
 	w.cur.calls, w.cur.id, w.cur.panicked = 0, -2, ""
 	w.req.URL.Path, w.req.Method = path, method
+	// the request's escaped spelling (URL.RawPath, set by net/http when the wire form is not the default
+	// encoding of Path) is not the path: routing goes by URL.Path whatever RawPath says
+	w.req.URL.RawPath = ""
+	switch len(path) % 7 {
+	case 3:
+		w.req.URL.RawPath = "/%61" + path
+	case 5:
+		w.req.URL.RawPath = strings.ReplaceAll(path, "/", "%2F")
+	}
 	defer func() {
 		if r := recover(); r != nil {
 			w.cur.panicked = fmt.Sprint(r)
